@@ -402,6 +402,39 @@ pub fn run(args: &Args, report: &mut Report) {
         }
         return;
     }
+    if args.mode.as_deref() == Some("miri") {
+        // two chains, a handful of draws, no watchdog thread: Miri reports UB, data races and deadlocks of the
+        // schedule it executes (one schedule per -Zmiri-seed)
+        for i in 0..3u64 {
+            let mut c = gen_case(seed, i * 6);
+            c.num_chains = 2;
+            c.cores = 2;
+            c.num_tune = 3;
+            c.num_draws = 3;
+            c.dim = 2;
+            c.delays.clear();
+            c.yield_permille = 0;
+            c.sleep_permille = 0;
+            c.script = match i {
+                0 => vec![Cmd::Pause, Cmd::Progress, Cmd::Resume],
+                1 => vec![Cmd::Flush, Cmd::Inspect, Cmd::Pause, Cmd::Abort],
+                _ => vec![Cmd::Progress, Cmd::Wait(1)],
+            };
+            report.eval();
+            let log = par::run(&spec_of(&c));
+            let mut h = Fnv::new();
+            h.str("miri").u64(i);
+            report.nontrivial(h.finish());
+            report.nontrivial(sched::signature(&log.events));
+            if let Final::ClientPanic(p) = &log.fin {
+                report.violation(format!("C11:{}:client_call_panicked", c.preset.name()), p.clone(), case_json(&c));
+            }
+            if let Final::NotFinished = &log.fin {
+                report.violation(format!("C11:{}:run_did_not_finish", c.preset.name()), "under Miri".to_string(), case_json(&c));
+            }
+        }
+        return;
+    }
     let n = report.size(240, 5000);
     for i in 0..n {
         if too_many_hangs(report) {
